@@ -133,6 +133,12 @@ func c03Scenario(c *Ctx, idx int, r *Rng) {
 	for k := 0; k < nremotes; k++ {
 		rm := &c03Remote{name: []string{"origin", "backup", "third"}[k], dir: filepath.Join(base, fmt.Sprintf("remote%d.git", k)), srv: newLfsServer()}
 		defer rm.srv.srv.Close()
+		if r.Chance(20) {
+			// the first upload action this server offers for an object has already lapsed (or lapses within
+			// the client's safety margin): the client has to ask again, not to take the object for stored
+			rm.srv.lapseUploads = true
+			c.R.Count("remote.lapsed-upload-actions")
+		}
 		runIn(base, nil, "git", "init", "-q", "--bare", rm.dir)
 		remotes = append(remotes, rm)
 	}
